@@ -312,6 +312,12 @@ def enum_words(tier, seed):
                 w = (p << 26) | (rt << 21) | (ra << 16) | im
                 if w not in seen:
                     seen.add(w); yield w
+    # instructions whose 10-bit field names a special register (or a mask / segment register): every value of the field
+    for xo in (339, 467, 371, 144, 210, 595):
+        for fld in range(1024):
+            w = (31 << 26) | (3 << 21) | (fld << 11) | (xo << 1)
+            if w not in seen:
+                seen.add(w); yield w
     for i in range(2000 if tier == 'quick' else 200000):
         w = rng.getrandbits(32)
         if w not in seen:
